@@ -182,3 +182,21 @@ prop("C06",
      trusted_base=["tools/goextract: expectedPacketType", "vlapi/mqttp codec"],
      assumptions=["publish/ack handling beyond 'no outstanding handshake' is C04/C03", "re-authentication is unreachable: no authentication method is ever accepted"],
 )
+
+prop("C19",
+     coq=["gen/Extracted.v", "model/KeepAlive.v", "proofs/KeepAliveProofs.v", "chk/C19chk.v", "props/C19.v"],
+     n={"quick": 48, "thorough": 480, "search": 96},
+     shrink_fields=[],
+     rule="real-time runs, 24 in parallel: 5/6 'keep' cases with client keep-alive K in {1,2,2,3,0}, 25% with a forced server keep-alive of 1-2 s, and 0-4 packets (PINGREQ / PUBLISH qos0 / SUBSCRIBE) "
+          "sent at gaps either clearly inside the deadline or at most K seconds, then silence; 1/6 'conn' cases: a socket that never sends CONNECT with connect timeout 1-2 s. "
+          "Observables: whether and when (ms since CONNACK / socket open) the broker closed, and whether a watcher saw the Will. Coq computes the expected closure time from the extracted "
+          "formula and the ACTUAL send times; lower bounds are exact (never before the deadline, never before K s of silence), scheduling slack of 1.5 s is allowed above only. "
+          "non-trivial = every case; distinct by case JSON.",
+     level_text="Theorems (coq/props/C19.v) on the deadline expression RE-EXTRACTED from connection/options.go on every run: for every K >= 0 it equals floor(1.5 K) and lies in [K, 3K/2]; K = 0 disables the timer; "
+                "over the reader-loop model (deadline re-armed after every processed packet, logical time) a silent connection is closed exactly at last + 1.5 K, whatever the traffic never before K of silence, "
+                "and a connection sending at least every K seconds (K >= 2; K = 1 needs gaps < 1 s since floor(1.5) = 1) is not closed while it does so. Tied by the translator and by timed differential runs "
+                "(also: closure by deadline publishes the Will, i.e. counts as abnormal; the connect phase uses the same formula on the connect timeout). Partial: real timers / OS read deadlines are outside the theorem.",
+     level_note="Trusted: Coq kernel; tools/goextract (argument of time.Duration in KeepAlive); Go net deadlines and timers; wall-clock measurement in the harness (exact below, 1.5 s slack above).",
+     trusted_base=["tools/goextract: keepalive expression", "Go timers / read deadlines"],
+     assumptions=["the reader re-arms the deadline once per processed packet", "time is measured on the client side from the completion of its write"],
+)
